@@ -49,7 +49,12 @@ func hasOperatorOrDirect(m *openfgav1.AuthorizationModel) bool {
 }
 
 // roundTrip runs the C01 monitor on one text. It returns false when the text is outside the property's domain.
-func roundTrip(run *core.Run, d string, origin string) bool {
+func roundTrip(run *core.Run, d string, origin string) (in bool) {
+	run.Guard(&core.Case{Kind: "dsl", DSL: d, Extra: map[string]string{"origin": origin}}, func() { in = roundTrip1(run, d, origin) })
+	return in
+}
+
+func roundTrip1(run *core.Run, d string, origin string) bool {
 	c := &core.Case{Kind: "dsl", DSL: d, Extra: map[string]string{"origin": origin}}
 	m1, err := transformer.TransformDSLToProto(d)
 	run.Eval(1)
@@ -160,6 +165,9 @@ func runC01(run *core.Run) {
 		l := &gen.Layout{R: r, Wild: r.Intn(5) != 0, CRLF: r.Intn(4) == 0, Comments: r.Intn(2) == 0}
 		if i%97 == 5 {
 			l.Long = 66000
+		}
+		if i%10 == 3 {
+			l.Mixed = true
 		}
 		txt := d.Render(l)
 		if !roundTrip(run, txt, "G2") {
